@@ -23,4 +23,11 @@ CLAIMED = {
          "written subscripts are stored + 1; malformed headers / size lines are rejected. Every run exports real files, compares them token by token with the model's encode, imports them "
          "and compares bit for bit, and checks the premise parse(fmt v) = v on every value token written (whole double exponent range)",
          _NOTE + "; the premise that '%.16e' text is read back bit-exactly by NumPy/libc is outside the theorems and is checked on every value written", "DESIGN.md 7 (C16)"),
+ "C13": ("Lean 4 invariants by induction over epochs / draws for executable models of the samplers and of StochasticSolver.solve, SGD/Adam/Adagrad steps and the L-BFGS-B wrapper + differential correspondence with scripted random draws and scripted estimates",
+         "samplers are modelled with the random draws as explicit inputs and proved to return in-range subscripts (a draw of exactly 0.0 included), data values at those subscripts, "
+         "one value and one weight per subscript and weights totalling the represented cells; solve is a state machine over (model, best, estimates, nfails, traces, optimizer fields) "
+         "with the estimates as oracles: proved for all runs that the result is the best epoch-boundary model, its estimate is the minimum of the reported trace (start + one per "
+         "completed epoch), nfails bookkeeping, the lower bound after every projected step for all three optimizers, L-BFGS-B not worse under the service contract, and reusability "
+         "(a solve on a used object equals a solve on a fresh one). Semi-stratified 'zeros' are unchecked by design: recorded known finding, theorem _partial",
+         _NOTE + "; objective/gradient estimates, sqrt, floor/ceil and the SciPy optimiser enter as oracles/services with stated contracts that the harness checks on recorded calls", "DESIGN.md 7 (C13)"),
 }
